@@ -94,15 +94,19 @@ def rand_table(r, nmax):
                 tb["t"][i] = tb["t"][i - 1]
         else:
             r.shuffle(tb["t"])
+    if tb["hastime"] and r.random() < 0.12:
+        # rows without a time (NaT): they satisfy no window bound
+        for i in r.sample(range(n), min(n, r.choice([1, 1, 2]))):
+            tb["t"][i] = NA
     return tb
 
 
 def increasing(tb):
-    return all(a < b for a, b in zip(tb["t"], tb["t"][1:]))
+    return all(a < b for a, b in zip(tb["t"], tb["t"][1:])) and NA not in tb["t"]
 
 
 def rand_config(r, tb, faults):
-    t = tb["t"]
+    t = [v for v in tb["t"] if v != NA] or [0]
     if not tb.get("hastime", True):
         ents, keys = [], set()
         for _ in range(r.randint(1, 4)):
